@@ -27,16 +27,16 @@ func guardsEngine(P *load.Program) *guards.Engine {
 	return eng
 }
 
-func fnName(f *ssa.Function) string {
+func guardFnName(f *ssa.Function) string {
 	return guards.PkgRel(f, load.ModPath) + "." + guards.FuncShort(f)
 }
 
-func oblKey(o *guards.Obl) string {
+func guardOblKey(o *guards.Obl) string {
 	expr := o.Expr
 	if expr == "" {
 		expr = "?"
 	}
-	return fmt.Sprintf("%s/%s %s", fnName(o.Fn), o.Kind, expr)
+	return fmt.Sprintf("%s/%s %s", guardFnName(o.Fn), o.Kind, expr)
 }
 
 var guardsAssumptions = []string{
@@ -66,14 +66,14 @@ func runGuards(c *Ctx, roots []*ssa.Function, o guardsOpts) (scope []*ssa.Functi
 	E := guardsEngine(P)
 	for _, f := range roots {
 		E.Roots[f] = true
-		r.Saw(o.rootsCat, fnName(f))
+		r.Saw(o.rootsCat, guardFnName(f))
 	}
 	for _, f := range E.Reachable(roots) {
 		if f.Synthetic != "" || f.Blocks == nil {
 			continue
 		}
 		scope = append(scope, f)
-		r.Saw("reachable module functions", fnName(f))
+		r.Saw("reachable module functions", guardFnName(f))
 	}
 	E.SolveParamNil(scope)
 	ncalls := 0
@@ -95,7 +95,7 @@ func runGuards(c *Ctx, roots []*ssa.Function, o guardsOpts) (scope []*ssa.Functi
 					if len(names) > 3 {
 						names = append(names[:3], fmt.Sprintf("… (%d callees)", len(names)))
 					}
-					r.Saw("call sites", fmt.Sprintf("%s @%s -> %s", fnName(f), P.Rel(call.Pos()), strings.Join(names, ", ")))
+					r.Saw("call sites", fmt.Sprintf("%s @%s -> %s", guardFnName(f), P.Rel(call.Pos()), strings.Join(names, ", ")))
 				}
 			}
 		}
@@ -104,7 +104,7 @@ func runGuards(c *Ctx, roots []*ssa.Function, o guardsOpts) (scope []*ssa.Functi
 			if rule == "" {
 				continue
 			}
-			key := oblKey(ob)
+			key := guardOblKey(ob)
 			pos := P.Rel(ob.Pos())
 			switch ob.Status {
 			case guards.Proved:
@@ -124,7 +124,7 @@ func runGuards(c *Ctx, roots []*ssa.Function, o guardsOpts) (scope []*ssa.Functi
 			continue
 		}
 		for _, lp := range E.LoopProgress(f) {
-			key := fmt.Sprintf("%s/loop %s", fnName(f), lp.Desc)
+			key := fmt.Sprintf("%s/loop %s", guardFnName(f), lp.Desc)
 			want := "index advances by >= 1 on every back edge towards a loop-invariant bound tested on every iteration"
 			switch lp.Status {
 			case guards.Proved:
@@ -161,8 +161,8 @@ func runGuards(c *Ctx, roots []*ssa.Function, o guardsOpts) (scope []*ssa.Functi
 	return scope
 }
 
-// rootsFromEnv: LWROOTS="applayer/fragmentation:Encode,band:band.AddChannel" (debugging dumps only).
-func rootsFromEnv(P *load.Program) []*ssa.Function {
+// guardRootsFromEnv: LWROOTS="applayer/fragmentation:Encode,band:band.AddChannel" (debugging dumps only).
+func guardRootsFromEnv(P *load.Program) []*ssa.Function {
 	var out []*ssa.Function
 	for _, it := range strings.Split(os.Getenv("LWROOTS"), ",") {
 		it = strings.TrimSpace(it)
